@@ -112,6 +112,8 @@ def seq_families(tier):
     F["flatten2_d2"] = (scen.with_bounds(scen.flatten_g(2), "flatten", maxData=2, maxTop=3 if q else 4, maxPull=1,
                                          allowFail=q is False, burst=False), None)
     F["share1"] = (scen.with_bounds(scen.share_g(), "share", sinks=["probe"], **un), None)
+    F["share2_serr"] = (scen.with_bounds(scen.share_g(), "share", sinks=["probe", "probe"], maxData=1, maxTop=4, maxPull=1,
+                                         allowFail=False, sinkErr=True, burst=False), None)
     F["share2"] = (scen.with_bounds(scen.share_g(), "share", sinks=["probe", "probe"], maxData=1 if q else 2, maxTop=4,
                                     maxPull=1, allowFail=True),
                    scen.with_bounds(scen.share_g(), "share", sinks=["probe", "probe", "probe"], **nbig))
@@ -235,8 +237,8 @@ def plan(prop, tier):
         return fams
     own = {"C08": "merge", "C09": "concat", "C10": "combine", "C11": "flatten", "C12": "share"}
     if prop in own:
-        fams = [(n, c, r) for n, (c, r) in F.items() if c["fam"] == own[prop] and not n.endswith("_serr")
-                and not n.startswith("compo_")]
+        fams = [(n, c, r) for n, (c, r) in F.items() if c["fam"] == own[prop]
+                and (not n.endswith("_serr") or n == "share2_serr") and not n.startswith("compo_")]
         q = tier == "quick"
         if not q and prop in ("C08", "C09", "C10"):
             # thorough only: two members, two data each, four top-level actions, two pulls, failures
